@@ -176,7 +176,7 @@ func (c *Ctx) ruleDocURL(prefixVals map[string]bool) {
 	docDir := filepath.Join(P.Root, "book/gogreement-docs/src")
 	covered := map[string]string{}
 	codeD := P.Desc(fn.Params[0])
-	pageRx := regexp.MustCompile(`const\("([0-9a-z_]+)\.html"\)`)
+	pageRx := regexp.MustCompile(`const\("(?:https?://[^"]*/)?([0-9a-z_]+)\.html"\)`) // (a constant base URL is folded into the page constant)
 	// every way the result is put together: constants concatenated in the function itself, or the page name
 	// returned by a helper that is handed the code
 	var cases func(f *ssa.Function, pins pinMap, depth int)
